@@ -70,13 +70,19 @@ fn mn_strategy_medium(_t: Tier) -> BoxedStrategy<MnCase> {
 fn mn_strategy_dims(maxr: usize, maxc: usize) -> BoxedStrategy<MnCase> {
     (
         // slack 3 stands for -1: a maximum row weight below what the column weights need (must fail, or at least never exceed wr)
-        (prop_oneof![1 => Just(1usize), 20 => 2..=maxr], prop_oneof![1 => Just(1usize), 20 => 2..=maxc], prop_oneof![1 => Just(0usize), 30 => 1usize..=4], prop_oneof![6 => Just(0usize), 2 => Just(1usize), 2 => Just(2usize), 1 => Just(3usize)], any::<bool>()),
+        (prop_oneof![1 => Just(1usize), 20 => 2..=maxr], prop_oneof![1 => Just(1usize), 20 => 2..=maxc], prop_oneof![1 => Just(0usize), 30 => 1usize..=4], prop_oneof![12 => Just(0usize), 4 => Just(1usize), 4 => Just(2usize), 2 => Just(3usize), 1 => Just(4usize), 1 => Just(5usize)], any::<bool>()),
         (prop_oneof![4 => Just(None), 1 => Just(Some(4usize)), 4 => Just(Some(6usize)), 2 => Just(Some(8usize)), 3 => (1usize..=11).prop_map(Some), 1 => prop_oneof![Just(Some(usize::MAX)), Just(Some(1usize << 40)), Just(Some(isize::MAX as usize + 1))]], prop_oneof![2 => 0usize..=6, 1 => 7usize..=30], 0usize..=3, prop_oneof![2 => Just(0usize), 1 => 1usize..=5]),
         (any::<u64>(), prop_oneof![any::<u64>(), 0u64..1000, (u64::MAX - 200)..(u64::MAX - 70)], 1u64..=64, prop_oneof![Just(1usize), Just(2), Just(4), Just(16)]),
     )
         .prop_map(|((nrows, ncols, wc, slack, uniform), (min_girth, girth_trials, backtrack_cols, backtrack_trials), (seed, search_start, search_tries, threads))| {
             let wc = wc.min(nrows);
-            let wr = if slack == 3 { ((ncols * wc).div_ceil(nrows)).saturating_sub(1).max(1) } else { (ncols * wc).div_ceil(nrows) + slack };
+            // slack 4 / 5: "no limit" spelled as the largest value, or as 2^62
+            let wr = match slack {
+                3 => ((ncols * wc).div_ceil(nrows)).saturating_sub(1).max(1),
+                4 => usize::MAX,
+                5 => 1usize << 62,
+                _ => (ncols * wc).div_ceil(nrows) + slack,
+            };
             let search_start = search_start.min(u64::MAX - 100);
             MnCase { nrows, ncols, wr, wc, backtrack_cols, backtrack_trials, min_girth, girth_trials, uniform, seed, search_start, search_tries, threads }
         })
@@ -269,7 +275,7 @@ pub fn property() -> Property {
         subs: vec![
             Box::new(Sub {
                 name: "mackay-neal",
-                rule: "configurations rows 1..=12, cols 1..=24 (thorough 20 x 48; a single row / column in 5 % of the cases each), wc 0..=min(4, rows) (0 in 3 %), wr = ceil(cols*wc/rows) + {0,1,2} (and occasionally one less than feasible), both fill policies (one case in 400: 2-3 rows and more than 131 000 columns of weight one under the uniform policy, row weights beyond 2^16), min girth {none, 4, 6, 8, any of 1..=11 incl. odd values, 2^40, 2^63 or usize::MAX = no cycle at all} with 0..=30 girth trials, backtracking 0..=3 columns x 0..=5 trials, any u64 seed; on success: size, every column weight = wc, every row weight <= wr, own girth >= min girth, uniform policy without girth constraint: row weights differ by <= 1; same (config, seed) twice (second run on another thread) identical; seeds s..s+3 validated too and, when all succeed in a roomy configuration, not all identical; search(start, tries<=64) under rayon pools of 1/2/4/16 threads (start also near u64::MAX - tries): Some((s,h)) has start <= s < start+tries and h == run(s), None only if the sequential oracle finds every seed failing. Non-trivial = success where a neighbouring seed fails with backtracking/girth retries configured, or a search range with mixed outcomes",
+                rule: "configurations rows 1..=12, cols 1..=24 (thorough 20 x 48; a single row / column in 5 % of the cases each), wc 0..=min(4, rows) (0 in 3 %), wr = ceil(cols*wc/rows) + {0,1,2} (occasionally one less than feasible, or 'no limit' given as usize::MAX or 2^62), both fill policies (one case in 400: 2-3 rows and more than 131 000 columns of weight one under the uniform policy, row weights beyond 2^16), min girth {none, 4, 6, 8, any of 1..=11 incl. odd values, 2^40, 2^63 or usize::MAX = no cycle at all} with 0..=30 girth trials, backtracking 0..=3 columns x 0..=5 trials, any u64 seed; on success: size, every column weight = wc, every row weight <= wr, own girth >= min girth, uniform policy without girth constraint: row weights differ by <= 1; same (config, seed) twice (second run on another thread) identical; seeds s..s+3 validated too and, when all succeed in a roomy configuration, not all identical; search(start, tries<=64) under rayon pools of 1/2/4/16 threads (start also near u64::MAX - tries): Some((s,h)) has start <= s < start+tries and h == run(s), None only if the sequential oracle finds every seed failing. Non-trivial = success where a neighbouring seed fails with backtracking/girth retries configured, or a search range with mixed outcomes",
                 cases: |t| t.pick(12_000, 400_000),
                 strategy: mn_strategy,
                 check: check_mn,
